@@ -23,3 +23,9 @@ def prop(pid, **kw):
 
 prop("C01", lean_props=["C01", "Tables"])
 prop("C04", lean_props=["C04", "Tables"])
+
+# tracks register their properties in their own files (bin/props_<track>.py: `def register(prop, TB_COMMON)`)
+import importlib, os, sys
+for _t in ("thrift2", "pb", "idl", "gen"):
+    if os.path.exists(os.path.join(os.path.dirname(os.path.abspath(__file__)), f"props_{_t}.py")):
+        importlib.import_module(f"props_{_t}").register(prop, TB_COMMON)
